@@ -34,11 +34,33 @@ type Plan struct {
 	root       *selectionPlan
 	isMutation bool
 
+	// dynamicDirectives are the @skip / @include directives of the
+	// operation and its fragments whose condition refers to a variable, in
+	// document order. When there are none, root is planned once in
+	// PlanQuery. Otherwise the selection tree depends on the request's
+	// variables: root stays nil and ExecutePlan picks (planning on first
+	// use) the variant for the request's valuation of these directives,
+	// so that field collection sees every occurrence of a field and every
+	// spread of a fragment with its own condition, exactly as CollectFields
+	// does at run time.
+	dynamicDirectives []*ast.Directive
+	variants          map[string]*selectionPlan
+
 	// abstractMu guards lazy population of fieldPlan.abstractAlternatives,
 	// which happens at execute time (concurrently across fields) the
-	// first time each concrete type is encountered for an abstract field.
+	// first time each concrete type is encountered for an abstract field,
+	// and of variants.
 	abstractMu sync.Mutex
 }
+
+// maxPlanVariants bounds how many per-valuation root plans one Plan keeps;
+// beyond it a request whose valuation is not cached plans its own tree.
+const maxPlanVariants = 64
+
+// directiveEnv carries the truth value of every variable-driven @skip /
+// @include condition for the variant being planned (nil when the operation
+// has none).
+type directiveEnv map[*ast.Directive]bool
 
 // selectionPlan is a pre-collected, source-ordered list of fields to
 // emit for one selection set under a known parent runtime type. The
@@ -62,10 +84,9 @@ type fieldPlan struct {
 	args        argPlan
 	returnType  Output
 
-	// skipPredicate evaluates the field's combined @skip / @include
-	// directives against request variables. nil ⇒ always include
-	// (constant-true at plan time, the common case).
-	skipPredicate func(map[string]interface{}) bool
+	// env is the directive valuation this field was planned under; lazily
+	// planned abstract alternatives are collected under the same one.
+	env directiveEnv
 
 	// sub is set when returnType (after unwrapping NonNull and List)
 	// resolves to a single concrete *Object; abstractAlternatives is
@@ -157,8 +178,100 @@ func PlanQuery(schema *Schema, doc *ast.Document, operationName string) (*Plan, 
 		rootType:   rootType,
 		isMutation: operation.GetOperation() == ast.OperationTypeMutation,
 	}
-	plan.root = plan.planSelectionSet(rootType, operation.GetSelectionSet(), nil)
+	plan.dynamicDirectives = collectDynamicDirectives(operation, fragments)
+	if len(plan.dynamicDirectives) == 0 {
+		plan.root = plan.planSelectionSet(rootType, operation.GetSelectionSet(), nil, nil)
+	}
 	return plan, nil
+}
+
+// collectDynamicDirectives lists the variable-driven @skip / @include
+// directives reachable from the operation, each once, in document order.
+func collectDynamicDirectives(operation *ast.OperationDefinition, fragments map[string]ast.Definition) []*ast.Directive {
+	var out []*ast.Directive
+	visited := map[string]bool{}
+	add := func(directives []*ast.Directive) {
+		for _, d := range directives {
+			if d == nil || d.Name == nil {
+				continue
+			}
+			if (d.Name.Value == SkipDirective.Name || d.Name.Value == IncludeDirective.Name) && astHasVariables(d.Arguments) {
+				out = append(out, d)
+			}
+		}
+	}
+	var walk func(selectionSet *ast.SelectionSet)
+	walk = func(selectionSet *ast.SelectionSet) {
+		if selectionSet == nil {
+			return
+		}
+		for _, iSelection := range selectionSet.Selections {
+			switch sel := iSelection.(type) {
+			case *ast.Field:
+				add(sel.Directives)
+				walk(sel.SelectionSet)
+			case *ast.InlineFragment:
+				add(sel.Directives)
+				walk(sel.SelectionSet)
+			case *ast.FragmentSpread:
+				add(sel.Directives)
+				if sel.Name == nil || visited[sel.Name.Value] {
+					continue
+				}
+				visited[sel.Name.Value] = true
+				if fragDef, ok := fragments[sel.Name.Value].(*ast.FragmentDefinition); ok {
+					walk(fragDef.GetSelectionSet())
+				}
+			}
+		}
+	}
+	walk(operation.GetSelectionSet())
+	return out
+}
+
+// rootFor returns the root selection plan for a request's variables: the
+// one planned in PlanQuery when no directive depends on variables, else the
+// variant for this request's valuation of the variable-driven directives.
+func (p *Plan) rootFor(variableValues map[string]interface{}) *selectionPlan {
+	if len(p.dynamicDirectives) == 0 {
+		return p.root
+	}
+	env := make(directiveEnv, len(p.dynamicDirectives))
+	key := make([]byte, len(p.dynamicDirectives))
+	for i, d := range p.dynamicDirectives {
+		def := SkipDirective
+		if d.Name.Value == IncludeDirective.Name {
+			def = IncludeDirective
+		}
+		// A condition that is not a boolean neither skips nor excludes.
+		v, ok := getArgumentValues(def.Args, d.Arguments, variableValues)["if"].(bool)
+		if !ok {
+			v = d.Name.Value == IncludeDirective.Name
+		}
+		env[d] = v
+		key[i] = '0'
+		if v {
+			key[i] = '1'
+		}
+	}
+	p.abstractMu.Lock()
+	sp, ok := p.variants[string(key)]
+	p.abstractMu.Unlock()
+	if ok {
+		return sp
+	}
+	sp = p.planSelectionSet(p.rootType, p.operation.GetSelectionSet(), nil, env)
+	p.abstractMu.Lock()
+	if existing, ok := p.variants[string(key)]; ok {
+		sp = existing
+	} else if len(p.variants) < maxPlanVariants {
+		if p.variants == nil {
+			p.variants = map[string]*selectionPlan{}
+		}
+		p.variants[string(key)] = sp
+	}
+	p.abstractMu.Unlock()
+	return sp
 }
 
 // planSelectionSet pre-collects the fields under one selection-set
@@ -175,7 +288,7 @@ func PlanQuery(schema *Schema, doc *ast.Document, operationName string) (*Plan, 
 // visitedFragmentNames is threaded along to avoid infinite recursion
 // in mutually-referencing fragments — same shape as the runtime
 // collectFields uses.
-func (p *Plan) planSelectionSet(parentType *Object, selectionSet *ast.SelectionSet, visitedFragmentNames map[string]bool) *selectionPlan {
+func (p *Plan) planSelectionSet(parentType *Object, selectionSet *ast.SelectionSet, visitedFragmentNames map[string]bool, env directiveEnv) *selectionPlan {
 	if selectionSet == nil {
 		return nil
 	}
@@ -184,7 +297,7 @@ func (p *Plan) planSelectionSet(parentType *Object, selectionSet *ast.SelectionS
 	}
 	sp := &selectionPlan{parentType: parentType}
 	keyed := map[string]int{}
-	p.collectInto(parentType, selectionSet, visitedFragmentNames, sp, keyed, nil)
+	p.collectInto(parentType, selectionSet, visitedFragmentNames, sp, keyed, env)
 	if len(sp.fields) == 0 {
 		return nil
 	}
@@ -207,7 +320,7 @@ func (p *Plan) planMergedFieldChildren(fp *fieldPlan) {
 	// Object returns resolve to a single concrete type, so plan their
 	// sub-selection eagerly.
 	if obj, ok := unwrapNamedType(fp.returnType).(*Object); ok {
-		fp.sub = p.planMergedSelectionsForType(obj, fp.fieldASTs)
+		fp.sub = p.planMergedSelectionsForType(obj, fp.fieldASTs, fp.env)
 		return
 	}
 	// Abstract returns (Interface / Union) are planned lazily, per
@@ -234,7 +347,7 @@ func (p *Plan) abstractAlternative(fp *fieldPlan, runtimeType *Object) *selectio
 	if sub, ok := fp.abstractAlternatives[runtimeType]; ok {
 		return sub
 	}
-	sub := p.planMergedSelectionsForType(runtimeType, fp.fieldASTs)
+	sub := p.planMergedSelectionsForType(runtimeType, fp.fieldASTs, fp.env)
 	fp.abstractAlternatives[runtimeType] = sub
 	return sub
 }
@@ -243,7 +356,7 @@ func (p *Plan) abstractAlternative(fp *fieldPlan, runtimeType *Object) *selectio
 // SelectionSet under one concrete parent type, returning a
 // selectionPlan that mirrors what completeObjectValue's runtime
 // collectFields loop would produce.
-func (p *Plan) planMergedSelectionsForType(parentType *Object, fieldASTs []*ast.Field) *selectionPlan {
+func (p *Plan) planMergedSelectionsForType(parentType *Object, fieldASTs []*ast.Field, env directiveEnv) *selectionPlan {
 	sp := &selectionPlan{parentType: parentType}
 	keyed := map[string]int{}
 	visited := map[string]bool{}
@@ -251,7 +364,7 @@ func (p *Plan) planMergedSelectionsForType(parentType *Object, fieldASTs []*ast.
 		if f == nil || f.SelectionSet == nil {
 			continue
 		}
-		p.collectInto(parentType, f.SelectionSet, visited, sp, keyed, nil)
+		p.collectInto(parentType, f.SelectionSet, visited, sp, keyed, env)
 	}
 	if len(sp.fields) == 0 {
 		return nil
@@ -266,24 +379,22 @@ func (p *Plan) planMergedSelectionsForType(parentType *Object, fieldASTs []*ast.
 }
 
 // collectInto mirrors executor.collectFields: walks selections,
-// follows fragment spreads + inline fragments, evaluates @include /
-// @skip directives at plan time when constant. Per-field
-// skipPredicates carry the dynamic part forward to ExecutePlan.
-//
-// parentPred carries variable-driven @skip / @include from any
-// enclosing inline fragment or fragment spread. It is AND-composed
-// with each field's own predicate when a new fieldPlan is created so
-// that fragment-level gates are honored at execute time.
+// follows fragment spreads + inline fragments, and evaluates @include /
+// @skip on every node: literal conditions directly, variable-driven ones
+// through env (the valuation of the variant being planned). An excluded
+// node contributes nothing: an excluded occurrence of a field adds neither
+// its AST nor its sub-selection to the merged field, and an excluded spread
+// does not mark its fragment as visited, so a later spread of the same
+// fragment is still collected.
 //
 // keyed maps responseKey → index in sp.fields so repeat selections
 // of the same response key merge their fieldASTs (matches
 // collectFields's `fields[name] = append(fields[name], selection)`).
-func (p *Plan) collectInto(parentType *Object, selectionSet *ast.SelectionSet, visitedFragmentNames map[string]bool, sp *selectionPlan, keyed map[string]int, parentPred func(map[string]interface{}) bool) {
+func (p *Plan) collectInto(parentType *Object, selectionSet *ast.SelectionSet, visitedFragmentNames map[string]bool, sp *selectionPlan, keyed map[string]int, env directiveEnv) {
 	for _, iSelection := range selectionSet.Selections {
 		switch sel := iSelection.(type) {
 		case *ast.Field:
-			pred, alwaysSkip := planDirectives(sel.Directives)
-			if alwaysSkip {
+			if !planIncludes(sel.Directives, env) {
 				continue
 			}
 			responseKey := getFieldEntryKey(sel)
@@ -314,7 +425,7 @@ func (p *Plan) collectInto(parentType *Object, selectionSet *ast.SelectionSet, v
 				fieldName:     fieldName,
 				fieldDef:      fieldDef,
 				fieldASTs:     []*ast.Field{sel},
-				skipPredicate: andPredicates(parentPred, pred),
+				env:           env,
 			}
 			if fieldDef != nil {
 				fp.returnType = fieldDef.Type
@@ -324,20 +435,18 @@ func (p *Plan) collectInto(parentType *Object, selectionSet *ast.SelectionSet, v
 			sp.fields = append(sp.fields, fp)
 
 		case *ast.InlineFragment:
-			pred, alwaysSkip := planDirectives(sel.Directives)
-			if alwaysSkip {
+			if !planIncludes(sel.Directives, env) {
 				continue
 			}
 			if !planFragmentMatches(*p.schema, sel.TypeCondition, parentType) {
 				continue
 			}
 			if sel.SelectionSet != nil {
-				p.collectInto(parentType, sel.SelectionSet, visitedFragmentNames, sp, keyed, andPredicates(parentPred, pred))
+				p.collectInto(parentType, sel.SelectionSet, visitedFragmentNames, sp, keyed, env)
 			}
 
 		case *ast.FragmentSpread:
-			pred, alwaysSkip := planDirectives(sel.Directives)
-			if alwaysSkip {
+			if !planIncludes(sel.Directives, env) {
 				continue
 			}
 			fragName := ""
@@ -360,28 +469,9 @@ func (p *Plan) collectInto(parentType *Object, selectionSet *ast.SelectionSet, v
 				continue
 			}
 			if fragDef.GetSelectionSet() != nil {
-				p.collectInto(parentType, fragDef.GetSelectionSet(), visitedFragmentNames, sp, keyed, andPredicates(parentPred, pred))
+				p.collectInto(parentType, fragDef.GetSelectionSet(), visitedFragmentNames, sp, keyed, env)
 			}
 		}
-	}
-}
-
-// andPredicates returns a predicate that is true only when both inputs
-// are true. nil is treated as the constant-true predicate, so the
-// common "no enclosing gate" / "no field-level directive" cases avoid
-// allocating a closure.
-func andPredicates(a, b func(map[string]interface{}) bool) func(map[string]interface{}) bool {
-	if a == nil {
-		return b
-	}
-	if b == nil {
-		return a
-	}
-	return func(vars map[string]interface{}) bool {
-		if !a(vars) {
-			return false
-		}
-		return b(vars)
 	}
 }
 
@@ -465,67 +555,41 @@ func valueHasVariables(v ast.Value) bool {
 	return false
 }
 
-// planDirectives evaluates @include and @skip directives at plan
-// time when their `if` argument is a literal; returns a
-// skipPredicate (nil if always-include) and an alwaysSkip flag (true
-// if literal evaluation produced a definitive skip).
-func planDirectives(directives []*ast.Directive) (pred func(map[string]interface{}) bool, alwaysSkip bool) {
-	var skipDir, includeDir *ast.Directive
+// planIncludes decides whether a node carrying these directives is part of
+// the selection: @skip(if: true) or @include(if: false) excludes it. Literal
+// conditions are evaluated here; variable-driven ones were evaluated against
+// the request's variables by rootFor and are looked up in env.
+func planIncludes(directives []*ast.Directive, env directiveEnv) bool {
 	for _, d := range directives {
 		if d == nil || d.Name == nil {
 			continue
 		}
+		var def *Directive
 		switch d.Name.Value {
 		case SkipDirective.Name:
-			skipDir = d
+			def = SkipDirective
 		case IncludeDirective.Name:
-			includeDir = d
+			def = IncludeDirective
+		default:
+			continue
 		}
-	}
-	if skipDir == nil && includeDir == nil {
-		return nil, false
-	}
-	// Evaluate constants where possible; surface a runtime predicate
-	// for the variable-driven cases.
-	var skipDyn, includeDyn *ast.Directive
-	if skipDir != nil {
-		if astHasVariables(skipDir.Arguments) {
-			skipDyn = skipDir
+		var v, ok bool
+		if astHasVariables(d.Arguments) {
+			v, ok = env[d]
 		} else {
-			vals := getArgumentValues(SkipDirective.Args, skipDir.Arguments, nil)
-			if v, ok := vals["if"].(bool); ok && v {
-				return nil, true
-			}
+			v, ok = getArgumentValues(def.Args, d.Arguments, nil)["if"].(bool)
+		}
+		if !ok {
+			continue
+		}
+		if def == SkipDirective && v {
+			return false
+		}
+		if def == IncludeDirective && !v {
+			return false
 		}
 	}
-	if includeDir != nil {
-		if astHasVariables(includeDir.Arguments) {
-			includeDyn = includeDir
-		} else {
-			vals := getArgumentValues(IncludeDirective.Args, includeDir.Arguments, nil)
-			if v, ok := vals["if"].(bool); ok && !v {
-				return nil, true
-			}
-		}
-	}
-	if skipDyn == nil && includeDyn == nil {
-		return nil, false
-	}
-	return func(vars map[string]interface{}) bool {
-		if skipDyn != nil {
-			vals := getArgumentValues(SkipDirective.Args, skipDyn.Arguments, vars)
-			if v, ok := vals["if"].(bool); ok && v {
-				return false // excluded
-			}
-		}
-		if includeDyn != nil {
-			vals := getArgumentValues(IncludeDirective.Args, includeDyn.Arguments, vars)
-			if v, ok := vals["if"].(bool); ok && !v {
-				return false // excluded
-			}
-		}
-		return true
-	}, false
+	return true
 }
 
 // planFragmentMatches mirrors doesFragmentConditionMatch: a missing
@@ -628,7 +692,7 @@ func ExecutePlan(plan *Plan, p ExecuteParams) (result *Result) {
 			plan:           plan,
 		}
 
-		data := executePlannedSelection(eCtx, plan.root, p.Root, plan.rootType, nil)
+		data := executePlannedSelection(eCtx, plan.rootFor(variableValues), p.Root, plan.rootType, nil)
 		// Mutations run serially with each field's result
 		// dethunked depth-first; queries run all then dethunk
 		// breadth-first. The traversal here just runs the appropriate
@@ -668,9 +732,6 @@ func executePlannedSelection(eCtx *executionContext, sp *selectionPlan, source i
 	}
 	finalResults := make(map[string]interface{}, len(sp.fields))
 	for _, fp := range sp.fields {
-		if fp.skipPredicate != nil && !fp.skipPredicate(eCtx.VariableValues) {
-			continue
-		}
 		if fp.fieldDef == nil {
 			// Mirrors executeSubFields' hasNoFieldDefs branch: silently
 			// skip unknown fields. Validation should have rejected
